@@ -39,6 +39,7 @@ static void c05_gen(plan_t *p, rng_t *r, int tier) {
 	item_set(&p->cfg, "threads2", n2);
 	item_set(&p->cfg, "actors", actors);
 	item_set(&p->cfg, "skipfirst", rng_chance(r, 200));
+	item_set(&p->cfg, "attach", rng_chance(r, 500));
 	item_set(&p->cfg, "pipe", rng_chance(r, 500) ? 4096 : 65536);
 	item_set(&p->cfg, "bind", rng_chance(r, 500));
 	item_set(&p->cfg, "cloexec", rng_chance(r, 500));
@@ -229,6 +230,18 @@ static void c05_pre(const plan_t *p) {
 
 static void *racer_main(void *arg);
 static int g_racers_stop;
+/* an application thread that serves as worker 0 for a while (tp_thread_attach_first) */
+static int g_att_fiber, g_att_rc;
+static void *attacher_main(void *arg) {
+	pool_w *pw = &W.pool[0];
+	(void)arg;
+	g_att_rc = tp_thread_attach_first(pw->tp);
+	/* back in application code: this thread is no pool thread any more, whatever it was while it served */
+	if (0 == g_att_rc && tpt_get_current() != NULL)
+		sim_violation("thread-identity-stale", "tp_thread_attach_first() returned, but tpt_get_current() still answers a pool thread for the calling application thread: its self-direct sends and deadlock guards act on a thread it no longer is");
+	return NULL;
+}
+static int pred_thr0_running(void *arg) { pool_w *pw = arg; return tpt_is_running(pw->thr[0]) || sim_fiber_done(g_att_fiber); }
 static void *c05_root(void *arg) {
 	const plan_t *p = arg;
 	int n = (int)item_get(&p->cfg, "threads", 2), n2 = (int)item_get(&p->cfg, "threads2", 0);
@@ -249,6 +262,12 @@ static void *c05_root(void *arg) {
 	if (item_get(&p->cfg, "track", 0) || 1) { world_track_queues(0); if (n2 > 0) world_track_queues(1); }
 	world_start_threads(0, (int)item_get(&p->cfg, "skipfirst", 0));
 	if (n2 > 0) world_start_threads(1, 0);
+	g_att_fiber = -1;
+	if (item_get(&p->cfg, "skipfirst", 0) && item_get(&p->cfg, "attach", 0) && item_get(&p->cfg, "lateprobe", 1)) {
+		g_att_fiber = sim_spawn(attacher_main, NULL, "attacher");
+		sim_block(pred_thr0_running, &W.pool[0], 0, "c05.wait_attached");
+		if (tpt_is_running(W.pool[0].thr[0])) { W.pool[0].never_started[0] = 0; sim_probe("c05.worker0_is_an_attached_thread"); }
+	}
 	if (item_get(&p->cfg, "waitstart", 0)) { world_wait_threads_running(0); if (n2 > 0) world_wait_threads_running(1); }
 	else sim_probe("c05.traffic_during_startup");
 	for (int a = 0; a < actors; a++) { char nm[16]; snprintf(nm, sizeof(nm), "actor%d", a); ids[a] = sim_spawn(actor_main, (void *)(intptr_t)a, nm); }
@@ -298,6 +317,7 @@ static void *c05_root(void *arg) {
 		}
 		g_racers_stop = 1;
 		for (int a = 0; a < nr; a++) sim_join_fiber(racers[a]);
+		if (g_att_fiber >= 0) sim_join_fiber(g_att_fiber);   /* released by the shutdown */
 		/* every worker has left its loop: what was reported as failed must not have run, not even later */
 		for (int i = 0; i < W.nmsgs && !sim_violated(); i++) {
 			msg_rec *m = &W.msgs[i];
